@@ -146,6 +146,7 @@ func describe(c Case, res *runResult) string {
 
 type seqStats struct {
 	flowPost, flowPre, noValue, mult, multSleep, sleepItem, minWait bool
+	htmlStep, textStep, htmlEsc, htmlNoValue, htmlURIRef, htmlHdrRef, htmlBodyRef bool
 	nextUsed, nextWrapped                                           bool
 	fails                                                           map[string]bool
 	failPos                                                         map[string]bool
@@ -359,6 +360,18 @@ func checkSeq(c Case, o *vf.Obs) error {
 				}
 			}
 			st.noValue = st.noValue || s.Req.NoValue
+			if s.Def.Templater == si.TemplaterHTML {
+				st.htmlStep = true
+				st.htmlEsc = st.htmlEsc || s.Req.HTMLEscaped
+				st.htmlNoValue = st.htmlNoValue || s.Req.NoValue
+				st.htmlURIRef = st.htmlURIRef || len(s.Def.URI.Refs()) > 0
+				for _, h := range s.Def.Headers {
+					st.htmlHdrRef = st.htmlHdrRef || len(h.Value.Refs()) > 0
+				}
+				st.htmlBodyRef = st.htmlBodyRef || (s.Def.Body != nil && len(s.Def.Body.Refs()) > 0)
+			} else {
+				st.textStep = true
+			}
 			rep := c.reply(s.Def, ri)
 			chunked := c.chunkAt(ri) > 0 && !rep.Closed && !rep.Cut && rep.Announced == 0
 			headCL := rep.Announced > 0 && c.chunkAt(ri) == 0 // answer to HEAD that announces a Content-Length > 0
@@ -552,6 +565,13 @@ func checkSeq(c Case, o *vf.Obs) error {
 	o.ClassIf(st.flowPost, "flow_captured_value")
 	o.ClassIf(st.flowPre, "flow_preprocessor_value")
 	o.ClassIf(st.noValue, "missing_var_no_value")
+	o.ClassIf(st.htmlStep, "templater_html_step_rendered")
+	o.ClassIf(st.htmlStep && st.textStep, "templater_html_and_text_steps_in_one_run")
+	o.ClassIf(st.htmlEsc, "templater_html_value_needs_escaping")
+	o.ClassIf(st.htmlNoValue, "templater_html_missing_var")
+	o.ClassIf(st.htmlURIRef, "templater_html_value_in_uri")
+	o.ClassIf(st.htmlHdrRef, "templater_html_value_in_header")
+	o.ClassIf(st.htmlBodyRef, "templater_html_value_in_body")
 	o.ClassIf(st.mult, "multiplicity")
 	o.ClassIf(st.multSleep, "multiplicity_with_sleep")
 	o.ClassIf(st.sleepItem, "sleep_item")
